@@ -2799,6 +2799,9 @@ class ReportDTCExtDataRecordByDTCNumberResponse(
 
             self.dtc_and_status_record = dtc_and_status_record
 
+        if len(dtc_ext_data_records) < 1:
+            raise ValueError("At least one DTCExtDataRecord is required")
+
         for dtc_ext_data_record_number, dtc_ext_data_record in dtc_ext_data_records.items():
             check_range(dtc_ext_data_record_number, "dtc_ext_data_record_number", 0, 0xFD)
 
